@@ -11,6 +11,7 @@ import (
 	"syscall"
 	"time"
 
+	"github.com/yaricom/goNEAT/v4/experiment"
 	"github.com/yaricom/goNEAT/v4/neat"
 	"github.com/yaricom/goNEAT/v4/neat/genetics"
 )
@@ -34,7 +35,7 @@ func init() {
 			return 5760
 		},
 		Run:        runC17,
-		Required:   []string{"runs.cross_process_stuttered", "runs.in_process", "runs.same_input_objects", "runs.copied_options", "runs.cross_process", "scenarios.random_population", "scenarios.spawned", "scenarios.modular_start_genome_with_crossover", "epochs.compared"},
+		Required:   []string{"runs.cross_process_stuttered", "runs.in_process", "runs.same_input_objects", "runs.copied_options", "runs.cross_process", "scenarios.random_population", "scenarios.spawned", "scenarios.modular_start_genome_with_crossover", "runs.through_experiment_execute", "epochs.compared"},
 		TimeoutSec: func(tier string) int { return 7200 },
 	})
 }
@@ -96,6 +97,13 @@ func c17Scenario(seed int64, idx int) (*EvoScenario, int64) {
 			sc.Opts.MutateOnlyProb = 0.3
 		}
 		sc.modular = true
+	}
+	if idx%16 == 9 && sc.Ctor == ctorSpawn && sc.Start != nil && len(sc.Start.Genes) > 2 {
+		// a start genome put together by hand whose connection genes are not listed in the order of their innovation numbers
+		ss := snapGenome(sc.Start)
+		g.Shuffle(len(ss.Genes), func(i, j int) { ss.Genes[i], ss.Genes[j] = ss.Genes[j], ss.Genes[i] })
+		sc.Start, sc.StartSrc = buildFromSnap(ss), sc.StartSrc+" (genes listed out of innovation order)"
+		sc.genesShuffled = true
 	}
 	return sc, int64(splitmix(uint64(cs)+77) >> 1)
 }
@@ -164,6 +172,46 @@ func c17Execute(sc *EvoScenario, libSeed int64) *c17Result {
 	res.final = res.hashes[len(res.hashes)-1]
 	res.organism = genomeText(pop.Organisms[0].Genotype)
 	return res
+}
+
+// c17Evaluator is the generation evaluator of the runs that go through Experiment.Execute: the same deterministic fitness,
+// the same hash of the population at every generation
+type c17Evaluator struct {
+	coarse bool
+	hashes []string
+}
+
+func (e *c17Evaluator) GenerationEvaluate(_ context.Context, pop *genetics.Population, epoch *experiment.Generation) error {
+	for _, org := range pop.Organisms {
+		if e.coarse {
+			org.Fitness = coarseFitness(snapGenome(org.Genotype))
+		} else {
+			org.Fitness = snapFitness(snapGenome(org.Genotype))
+		}
+	}
+	e.hashes = append(e.hashes, c17Hash(pop))
+	epoch.FillPopulationStatistics(pop)
+	return nil
+}
+
+// c17ViaExecute spawns and evolves through the other entry point, Experiment.Execute (one trial, sequential executor, a new
+// Experiment value), after seeding the global source
+func c17ViaExecute(sc *EvoScenario, libSeed int64) ([]string, string) {
+	o := *sc.Opts
+	o.NumRuns = 1
+	o.NumGenerations = 6
+	if sc.Epochs < 6 {
+		o.NumGenerations = sc.Epochs
+	}
+	o.EpochExecutorType = neat.EpochExecutorTypeSequential
+	ev := &c17Evaluator{coarse: sc.coarseFitness}
+	exp := experiment.Experiment{Id: 0}
+	rand.Seed(libSeed)
+	err := exp.Execute(neat.NewContext(context.Background(), &o), sc.Start, ev, nil)
+	if err != nil {
+		return ev.hashes, err.Error()
+	}
+	return ev.hashes, ""
 }
 
 func c17Hash(pop *genetics.Population) string {
@@ -270,6 +318,9 @@ func runC17(c *Ctx, idx int) {
 		if sc.modular {
 			c.Count("scenarios.modular_start_genome_with_crossover", 1)
 		}
+		if sc.genesShuffled {
+			c.Count("scenarios.start_genome_genes_out_of_order", 1)
+		}
 		if again.errText != first.errText {
 			c.Violate("in-process/error", detail(), "the first run ended with %q, the run on the same input objects with %q", first.errText, again.errText)
 			return
@@ -320,6 +371,23 @@ func runC17(c *Ctx, idx int) {
 			dd["copied_options_run"] = ra.hashes
 			dd["fresh_options_run"] = rb.hashes
 			c.Violate("in-process/copied-options", dd, "a run on a by-value copy of the used options object (two settings changed) diverges at epoch %d from the run on options built anew with the same values", d)
+			return
+		}
+	}
+	if sc.Ctor == ctorSpawn && first.errText == "" && idx%4 == 2 {
+		// the other entry point: Experiment.Execute spawns and evolves by itself; two executions of new Experiment values after
+		// the same seeding of the global source
+		h1, e1 := c17ViaExecute(sc, libSeed)
+		h2, e2 := c17ViaExecute(sc, libSeed)
+		c.Count("runs.through_experiment_execute", 2)
+		if e1 != e2 {
+			c.Violate("in-process/error", detail(), "Experiment.Execute ended with %q, its repetition with %q", e1, e2)
+			return
+		}
+		if d := firstDiff(h1, h2); d >= 0 || len(h1) == 0 {
+			dd := detail()
+			dd["first_execution"], dd["second_execution"] = h1, h2
+			c.Violate("in-process/execute", dd, "two executions of Experiment.Execute (new Experiment values, same start genome and option values, same seed of the global source) diverge at generation %d", d)
 			return
 		}
 	}
